@@ -1468,10 +1468,19 @@ func min(x, y value) value {
 	}
 
 	// return (y < x) ? y : x
-	if binop(token.LSS, nil, y, x).(bool) {
+	if concreteCond(binop(token.LSS, nil, y, x)) {
 		return y
 	}
 	return x
+}
+
+// concreteCond turns the (possibly symbolic) result of a comparison into a
+// branch decision.
+func concreteCond(v value) bool {
+	if s, ok := v.(sym); ok {
+		return s.w.decide(s.t)
+	}
+	return v.(bool)
 }
 
 func max(x, y value) value {
@@ -1483,7 +1492,7 @@ func max(x, y value) value {
 	}
 
 	// return (y > x) ? y : x
-	if binop(token.GTR, nil, y, x).(bool) {
+	if concreteCond(binop(token.GTR, nil, y, x)) {
 		return y
 	}
 	return x
